@@ -140,13 +140,13 @@ def sampling(tier, rng, rep):
 
         def body():
             ctr, rr = disks.circle_parameters()
-            if np.max(np.abs(ctr[:, 0] + 1j * ctr[:, 1] - cs)) > 1e-7 or np.max(np.abs(rr - rs)) > 1e-7:
+            if not np.all(np.abs(ctr[:, 0] + 1j * ctr[:, 1] - cs) <= 1e-7) or not np.all(np.abs(rr - rs) <= 1e-7):
                 rep.fail("reports_centre_and_radius", f"{ctr.tolist()} {rr.tolist()}", inp); return
             comp = disks.complement()
             cc = comp.complement()
             # same disk: same circle, interior point on the same side
             c2, r2 = cc.circle_parameters()
-            if np.max(np.abs(c2 - ctr)) > 1e-6 or np.max(np.abs(r2 - rr)) > 1e-6 or not np.array_equal(cc.center_inside(), disks.center_inside()):
+            if not np.all(np.abs(c2 - ctr) <= 1e-6) or not np.all(np.abs(r2 - rr) <= 1e-6) or not np.array_equal(cc.center_inside(), disks.center_inside()):
                 rep.fail("complement_twice_is_identity", "", inp); return
             if np.any(comp.center_inside()) or not np.all(disks.center_inside()):
                 rep.fail("complement_contains_infinity", f"{comp.center_inside()} {disks.center_inside()}", inp); return
@@ -210,13 +210,13 @@ def sampling(tier, rng, rep):
             fr = rng.uniform(0.1, 1.4, k)
             Df = cp.CP1Disk(sc.copy(), fr.copy(), radius_metric="fs", center_coords="spherical")
             dia = Df.fs_diameter()
-            if np.max(np.abs(dia - 2 * fr)) > 1e-6:
+            if not np.all(np.abs(dia - 2 * fr) <= 1e-6):
                 rep.fail("fs_diameter", f"{dia.tolist()} vs {(2 * fr).tolist()}", {"spherical_centres": sc.tolist(), "fs_radii": fr.tolist()}); return
             fc = Df.fs_center().spherical_coords()
-            if np.max(np.abs(fc - sc)) > 1e-6:
+            if not np.all(np.abs(fc - sc) <= 1e-6):
                 rep.fail("fs_center", f"{fc.tolist()} vs {sc.tolist()}", {"spherical_centres": sc.tolist(), "fs_radii": fr.tolist()}); return
             # affine-built disks: FS diameter of disk + complement = pi, between 0 and pi
             da, db = disks.fs_diameter(), comp.fs_diameter()
-            if np.max(np.abs(da + db - np.pi)) > 1e-6 or np.any(da <= 0) or np.any(da >= np.pi):
+            if not np.all(np.abs(da + db - np.pi) <= 1e-6) or np.any(da <= 0) or np.any(da >= np.pi):
                 rep.fail("fs_diameter_complement", f"{da.tolist()} {db.tolist()}", inp); return
         rep.attempt("disk_operations_run", inp, body)
